@@ -29,11 +29,7 @@ RULE = (
 ASSUMPTIONS = [
     "dictionaries holding a value outside a declared domain are excluded from the 'M empty => validate passes' direction (validate may fail for the domain, not for a missing option)",
 ]
-CORE = [
-    "apply", "bind_src", "bind_res", "switch_disp", "switch_disp_nd", "switch_branch", "switch_dflt", "case_disp",
-    "case_cond", "coalesce_first", "coalesce_second", "list", "map_ev", "map_iter", "fa_kw", "ds_param", "ds_dispatch",
-    "ds_abs_dispatch", "ds_overload", "ds_effect", "wo_A", "wo_SY", "wdo_B", "cached", "tmpl_param", "opt_default",
-]
+CORE = ["apply", "bind_src", "switch_disp", "switch_disp_nd", "switch_branch", "case_cond", "coalesce_first", "coalesce_dom", "map_ev", "ds_dispatch", "ds_overload", "wo_A", "wdo_B", "opt_default"]
 
 
 TIER = ["quick"]
